@@ -25,7 +25,7 @@ RULE = (
     "slices are consecutive, disjoint, each <= chunksize rows, their union is [0,n) exactly once; passes == 1, or 2 "
     "iff centres are generated; no request covers more than chunksize rows when n > chunksize; Parquet: row groups "
     "in order, none twice per pass, buffered rows < chunksize + largest row group. Non-trivial: n > chunksize "
-    "(more than one chunk). Generated centres also with a probe (20) smaller than the input (23, 25, 30 rows); the frame proxy exposes .index and logs whole-frame operations (reset_index, copy, ...). Frame source also on the virtual pool with W=2,3 (chunk sizes that are no multiple of W). Reader objects (frame, HDF5, FITS, Parquet) reused over passes: every history of <= 2 (3) of {peek, loop left after 2 chunks, full pass, probe} must be followed by a complete pass. Distinct: the case tuple."
+    "(more than one chunk). Generated centres also with a probe (20) smaller than the input (23, 25, 30 rows); the frame proxy exposes .index and logs whole-frame operations (reset_index, copy, ...). Frame source also on the virtual pool with W=2,3 (chunk sizes that are no multiple of W). Reader objects (frame, HDF5, FITS, Parquet) reused over passes: every history of <= 2 (3) of {peek, loop left after 2 chunks, full pass, probe} must be followed by a complete pass. Frame source without a chunk size (module default lowered to 4; n = 9, 13): requests stay within the default. Distinct: the case tuple."
 )
 ASSUMPTIONS = [
     "requests are observed at the library's seam to the source object (slicing of the frame / dataset / FITS column, "
